@@ -254,7 +254,7 @@ def coq_eval(name, body, imports, timeout=900):
     with open(vf, 'w', encoding='utf-8') as f:
         f.write('From DC Require Import %s.\n' % ' '.join(imports))
         f.write(body)
-    rc, out, dt = run_cmd(['coqc'] + COQ_FLAGS + [vf], cwd=COQ, timeout=timeout)
+    rc, out, dt = run_cmd(['bash', '-c', 'ulimit -s unlimited 2>/dev/null; exec coqc "$@"', 'coqc'] + COQ_FLAGS + [vf], cwd=COQ, timeout=timeout)
     for ext in ('.v', '.vo', '.vok', '.vos', '.glob'):
         try:
             if rc == 0 or ext != '.v':
@@ -293,12 +293,12 @@ def parse_z_list(term):
     return out
 
 
-def coq_mismatches(name, imports, defs, checks, chunk=400, jobs=8):
+def coq_mismatches(name, imports, defs, checks, chunk=400, jobs=12):
     """checks: list of Coq boolean terms.  Returns indices whose term does not evaluate to true.
-    Evaluated as  Eval vm_compute in (indices of false)  in chunks."""
-    bad = []
-    errors = []
-    for start in range(0, len(checks), chunk):
+    Evaluated as  Eval vm_compute in (indices of false)  in chunks, chunks in parallel."""
+    from concurrent.futures import ThreadPoolExecutor
+
+    def one(start):
         part = checks[start:start + chunk]
         body = [defs, '\nDefinition checks : list bool := [\n']
         body.append(';\n'.join('  (%s)' % c for c in part))
@@ -308,14 +308,21 @@ def coq_mismatches(name, imports, defs, checks, chunk=400, jobs=8):
         body.append('Eval vm_compute in (falses 0 checks).\n')
         rc, out = coq_eval('%s_%d' % (name, start), ''.join(body), imports)
         if rc != 0:
-            errors.append(out[-1500:])
-            continue
+            return [], [out[-1500:]]
         res = parse_eval_lists(out)
         if not res:
-            errors.append('no result: ' + out[-500:])
-            continue
-        bad += [start + i for i in parse_z_list(res[-1])]
-    return bad, errors
+            return [], ['no result: ' + out[-500:]]
+        return [start + i for i in parse_z_list(res[-1])], []
+
+    bad, errors = [], []
+    starts = list(range(0, len(checks), chunk))
+    if not starts:
+        return bad, errors
+    with ThreadPoolExecutor(max_workers=jobs) as ex:
+        for b, e in ex.map(one, starts):
+            bad += b
+            errors += e
+    return sorted(bad), errors
 
 
 # ---------------------------------------------------------------------------
@@ -373,6 +380,15 @@ def load_known(prop):
     except FileNotFoundError:
         pass
     return findings, fixed
+
+
+def clear_replays(prop):
+    import glob
+    for f in glob.glob(os.path.join(REPLAYS, '%s-*.json' % prop)):
+        try:
+            os.remove(f)
+        except OSError:
+            pass
 
 
 def write_replay(prop, n, payload):
